@@ -163,6 +163,6 @@ Definition run (cmd : N) (arg : sx) : sx :=
   | 141 => run_c14_1 arg
   | 142 => run_c14_2 arg
   | 143 => run_c14_3 arg
-  | 220 | 221 | 222 | 223 => run_tab cmd arg
+  | 220 | 221 | 222 | 223 | 224 => run_tab cmd arg
   | _ => L [A 999999]
   end.
